@@ -13,7 +13,7 @@ from harness.util import rel_close
 
 RULE = ("mixtures of 1..6 distinct substances (pool of real formulas + random 1..3-element formulas over the live "
         "periodic table) with positive proportions over many orders of magnitude (mostly [1e-3,1e3], traces down to 1e-12, bulk up to 1e6; scale factors 1e-9 … 1e9), every norm_type (NUMBER, "
-        "NUMBER_FRACTION, MASS_FRACTION), natural / most-abundant, built from a dict or from the '<..>' string; "
+        "NUMBER_FRACTION, MASS_FRACTION), natural / most-abundant, built from a dict or from the '<..>' string (proportions written as plain decimals, integers, 'd.' and e/E notation); components include bare nucleons and fully ionised species; "
         "plus Substance composites (elements with counts, NUMBER mode); the avg row always and the components= selection on 40 % of the cases (impl vs model; selected rows must keep their values); scaling and both dualities on 40 % (quick) / all (thorough) of the cases; plus histories (a + b, add() on the sum, k * sum, add() on an operand; every live material re-read after every step); corpus first. non-trivial = at least two "
         "components with different masses; distinct = canonical JSON of (kind, mode, natural, components)")
 ASSUMPTIONS = [
@@ -30,7 +30,9 @@ EXPLANATION = ("theorems over any ordered field, any non-empty component list, a
 MODES = ["NUMBER", "NUMBER_FRACTION", "MASS_FRACTION"]
 POOL = ["H2O", "NaCl", "N2", "O2", "Ar", "CO2", "CH4", "C2H5OH", "Ca(OH)2", "SiO2", "Fe2O3", "U{238}O2", "D2O",
         "NH3", "H2SO4", "C6H12O6", "He", "Al2(SO4)3", "KMnO4", "HCl", "O{16}", "C{13}O2", "Na{+}", "Cl{-}",
-        "CaCO3", "MgSO4", "TiO2", "ZnO", "PbS", "Au", "W", "LiF", "BN", "C", "Fe", "Cu", "UF6", "CsI"]
+        "CaCO3", "MgSO4", "TiO2", "ZnO", "PbS", "Au", "W", "LiF", "BN", "C", "Fe", "Cu", "UF6", "CsI",
+        # bare nucleons, fully ionised species, plasma components
+        "[p]", "[n]", "[e]", "He{4-2}", "H{1-1}", "[p]B{11}", "[e]2", "D{2-1}", "[n]2[p]", "C{12-6}"]
 RTOL = 1e-9
 
 
@@ -96,12 +98,26 @@ def gen_case(rng, nat, allsym):
         f = rng.choice(POOL) if rng.random() < 0.6 else rand_formula(rng, syms)
         if f not in subs:
             subs.append(f)
-    via = "string" if rng.random() < 0.2 else "dict"
+    via = "string" if rng.random() < 0.25 else "dict"
     props = [rand_prop(rng) for _ in subs]
+    case = {"kind": "material", "mode": rng.choice(MODES), "natural": natural, "via": via}
     if via == "string":
-        props = [float("%.4f" % max(p, 0.0001)) for p in props]
-    return {"kind": "material", "mode": rng.choice(MODES), "natural": natural, "via": via,
-            "comps": [[f, p] for f, p in zip(subs, props)]}
+        tokens = [number_token(rng, p) for p in props]
+        props = [float(t) for t in tokens]          # the proportion that was written
+        case["tokens"] = tokens
+    case["comps"] = [[f, p] for f, p in zip(subs, props)]
+    return case
+
+
+def number_token(rng, p):
+    """the proportion written in one of the float notations the '<..>' expression accepts"""
+    forms = ["%.6e", "%.3E", "%r", "%.2e", "%.9E"]
+    if 1e-3 <= p < 1e5:
+        forms += ["%.4f", "%.4f", "%.6f", "%.1f"]
+    if p >= 1 and rng.random() < 0.3:
+        return rng.choice(["%d", "%d.", "%d.0e0"]) % int(round(p))
+    t = rng.choice(forms) % p
+    return t if float(t) > 0 else "%.6e" % p
 
 
 # ------------------------------------------------------------------ real code
@@ -112,7 +128,8 @@ def build(case, comps=None, mode=None):
     comps = case["comps"] if comps is None else comps
     mode = case["mode"] if mode is None else mode
     if case.get("via") == "string" and comps is case["comps"]:
-        expr = " ".join("%.4f <%s>" % (p, f) for f, p in comps)
+        toks = case.get("tokens") or ["%.4f" % p for f, p in comps]
+        expr = " ".join("%s <%s>" % (t, f) for t, (f, p) in zip(toks, comps))
     else:
         expr = {f: p for f, p in comps}
     return Material(expr, natural=case["natural"], norm_type=getattr(Norm, mode))
@@ -120,8 +137,8 @@ def build(case, comps=None, mode=None):
 
 def observe(obj, quantity=False):
     """(keys, p_i, m_i, x_i, X_i, sum_x, sum_X) read from the public tables of a composite"""
+    dd = obj.data_composite(quantity=quantity)        # first: on the object as it was built
     dc = obj.data_components(quantity=False)
-    dd = obj.data_composite(quantity=quantity)
     keys = list(obj.components.keys())
 
     def num(v):
@@ -183,7 +200,7 @@ def judge(ctx, case, imp, res, report=True):
             viol.append(("fractions:%s:components" % mode, "the material was given components %s but holds %s" %
                          ([f for f, _ in given], imp["keys"])))
             return viol, dis
-        tol = 1e-9 if case.get("via") == "dict" else 1e-3      # the string form is written with 4 decimals
+        tol = 1e-9 if (case.get("via") == "dict" or case.get("tokens")) else 1e-3   # legacy corpus strings: 4 decimals
         for (f, p), q in zip(given, imp["p"]):
             if not close(p, q, rtol=tol):
                 viol.append(("fractions:%s:proportion" % mode, "component %s was given proportion %r, the material holds %r" % (f, p, q)))
@@ -368,9 +385,25 @@ def history_stream(ctx, nat, allsym, n):
                 entries.append(("scale:#%d" % idx, replay, snaps[5][idx], mode, snapshot(obj, mode)))
         except Exception as e:  # noqa
             ctx.violation("history:%s:error" % mode, "combining valid materials raises %r  [%s]" % (e, json.dumps(replay)[:300]), replay)
+    # products and sums of substances used as they are: they are composites too
+    from scinumtools.materials import Substance
+    for i in range(n):
+        natural = ctx.rng.random() < 0.6
+        f1, f2 = ctx.rng.sample([f for f in POOL if "[" not in f], 2)
+        k = ctx.rng.choice([2, 3, 5, 0.5, 2.5, 10])
+        replay = {"stream": "history-substance", "natural": natural, "f1": f1, "f2": f2, "k": k}
+        ctx.case(["history-substance", replay], True)
+        ctx.count("history.substance")
+        try:
+            s1, s2 = Substance(f1, natural=natural), Substance(f2, natural=natural)
+            for label, obj in (("product", s1 * k), ("sum", s1 + s2), ("product-of-sum", (s1 + s2) * k), ("operand", s1)):
+                entries.append((label, replay, None, "NUMBER", snapshot(obj, "NUMBER")))
+        except Exception as e:  # noqa
+            ctx.violation("history:NUMBER:error", "combining valid substances raises %r  [%s]" % (e, json.dumps(replay)), replay)
     res = ctx.driver.ask_many([request(e[4]) for e in entries])
     for (label, replay, want, mode, imp), r in zip(entries, res):
-        case = {"kind": "material", "mode": mode, "natural": replay["natural"], "via": "dict", "comps": want}
+        case = {"kind": "material", "mode": mode, "natural": replay["natural"], "via": "dict", "comps": want} if want is not None \
+            else {"kind": "substance", "formula": label, "natural": replay["natural"]}
         viol, dis = judge(ctx, case, imp, r)
         for sig, what in viol[:1]:
             ctx.violation(sig.replace("fractions:", "history:"), "step %s: %s  [%s]" % (label, what, json.dumps(replay)[:300]),
